@@ -8,6 +8,7 @@ import (
 	"os"
 	"strings"
 	"sync"
+	"time"
 )
 
 func caseRand(seed int64, idx int) *rand.Rand {
@@ -24,6 +25,7 @@ func main() {
 	progress := flag.String("progress", "", "progress file")
 	descs := flag.String("descs", "", "file with one JSON case descriptor per line: run these instead of generating")
 	conc := flag.Int("conc", 1, "number of goroutines running cases concurrently (C16)")
+	tmo := flag.Int("timeout", 10, "time limit per case, in seconds")
 	flag.StringVar(&cliBinary, "cli", "", "path of the gophersat executable (C19)")
 	flag.StringVar(&cliDir, "clidir", "", "scratch directory for the files given to the executable (C19)")
 	flag.Parse()
@@ -37,6 +39,7 @@ func main() {
 		}
 		defer f.Close()
 	}
+	caseTimeout = time.Duration(*tmo) * time.Second
 	e := &emitter{out: f, progress: *progress, mu: &sync.Mutex{}}
 	var lines []string
 	if *descs != "" {
